@@ -170,6 +170,13 @@ def compare_report(c, r, k, banner, viol, counters, client=False, alt=None):
 
 def run_server(c):
     k = build_kex(c) if c['kind'] == 'server' else c['_kex']
+    if c['kind'] == 'server' and c['seed'] % 4 == 0:
+        # a server may advertise different lists per direction: the report is about the server-to-client lists, whatever the other direction holds
+        rr = random.Random(c['seed'] + 3)
+        nm = audit.db_names()
+        k['enc_cs'] = gen.pick_names(rr, 'enc', nm, rr.randint(1, 5), {'db': 1})
+        k['mac_cs'] = gen.pick_names(rr, 'mac', nm, rr.randint(1, 5), {'db': 1})
+        k['comp_cs'] = ['zlib'] if k['comp_sc'] != ['zlib'] else ['none']
     banner = 'SSH-2.0-OpenSSH_8.%d' % (random.Random(c['seed']).randint(0, 9))
     hk = gen.hostkeys_for(k['key']) if c.get('probes', True) else {}
     script = {'banner': banner, 'kex': k, 'hostkeys': hk, 'hostkey_default': None, 'gex': {'sizes': [3072, 4096], 'style': 'strict'} if c.get('probes', True) else None}
@@ -202,6 +209,10 @@ def run_client(c):
         names = audit.db_names()
         k['enc_cs'] = gen.pick_names(rng, 'enc', names, rng.randint(1, 6), {'db': 1})
         k['mac_cs'] = gen.pick_names(rng, 'mac', names, rng.randint(1, 6), {'db': 1})
+        # compression differs per direction as well; for it the statement is unambiguous ("as sent"): text and JSON both show the list the JSON field carries (server-to-client)
+        k['comp_cs'] = rng.choice([['none'], ['zlib@openssh.com', 'none'], ['zlib']]) if k['comp_sc'] != ['none'] else ['zlib@openssh.com', 'zlib', 'none']
+        if k['comp_cs'] == k['comp_sc']:
+            k['comp_cs'] = ['none', 'zlib']
         alt = {'enc': k['enc_cs'], 'mac': k['mac_cs']}
     banner = 'SSH-2.0-OpenSSH_9.%d' % rng.randint(0, 9)
     script = {'banner': banner, 'kex': k}
